@@ -290,18 +290,16 @@ fn gen_unrelated(rng: &mut Rng, alpha: &[u8], k: usize) -> (Vec<u8>, Vec<u8>) {
         // disjoint sub-alphabets: no k-mer match for any k
         let cut = 1 + rng.below(alpha.len() - 1);
         let (a, b) = alpha.split_at(cut);
-        let (n1, n2) = (1 + rng.below(maxlen), rng.below(maxlen + 1));
+        let (n1, n2) = (rng.below(maxlen + 1), rng.below(maxlen + 1));
         let (x, y) = (rng.seq(a, n1), rng.seq(b, n2));
         if rng.chance(1, 2) {
-            (x, y)
-        } else if y.is_empty() {
             (x, y)
         } else {
             (y, x)
         }
     } else {
         // same alphabet, short: for k >= 3 usually no common k-mer
-        let (n1, n2) = (1 + rng.below(maxlen), rng.below(maxlen + 1));
+        let (n1, n2) = (rng.below(maxlen + 1), rng.below(maxlen + 1));
         let _ = k;
         (rng.seq(alpha, n1), rng.seq(alpha, n2))
     }
@@ -310,11 +308,6 @@ fn gen_unrelated(rng: &mut Rng, alpha: &[u8], k: usize) -> (Vec<u8>, Vec<u8>) {
 fn gen_call(rng: &mut Rng, sc: &ScSpec, k: usize, maxlen: usize) -> String {
     let alpha = &sc.f.alpha;
     let (x, y) = if rng.chance(1, 3) { gen_unrelated(rng, alpha, k) } else { gen_related(rng, alpha, maxlen) };
-    // NOTE: neither sequence is ever empty here — `banded::Aligner::*` does not terminate (or reports
-    // MIN_SCORE) when x or y is empty (known findings C02-empty-*; representatives live in corpus/C02.txt,
-    // each costs a watchdog restart).  Remove this guard once the fix is in.
-    let x = if x.is_empty() { vec![alpha[0]] } else { x };
-    let y = if y.is_empty() { vec![alpha[alpha.len() - 1]] } else { y };
     let head = |e: &str| format!("{},{},{}", e, hex(&x), hex(&y));
     match rng.below(16) {
         0 | 1 | 2 => head("custom"),
@@ -386,7 +379,7 @@ fn gen_sc(rng: &mut Rng) -> ScSpec {
 
 pub fn gen(tier: &str, rng: &mut Rng, out: &mut Vec<String>) {
     let thorough = tier == "thorough";
-    let nhist = if thorough { 60000 } else { 4500 };
+    let nhist = if thorough { 60000 } else { 8000 };
     for i in 0..nhist {
         let sc = gen_sc(rng);
         let k = 1 + rng.below(4);
@@ -396,14 +389,14 @@ pub fn gen(tier: &str, rng: &mut Rng, out: &mut Vec<String>) {
         let calls: Vec<String> = (0..ncalls).map(|_| gen_call(rng, &sc, k, maxlen)).collect();
         out.push(format!("{} kw:{}:{} {} {}", gen_cap(rng), k, w, sc.tokens(), calls.join(";")));
     }
-    // budget guard: disjoint alphabets (no k-mer match: the band is the whole matrix)
-    //   2300 x 2300: 2301² = 5 294 601 cells > 5 000 000 → the sentinel is the only accepted answer
-    //   2200 x 2200: 2201² = 4 844 401 cells           → a real alignment (validity and recomputed score checked)
+    // budget guard: disjoint alphabets (no k-mer match: the band is the whole matrix), at the exact boundary
+    //   1999 x 2500: 2000 * 2501 = 5 002 000 cells > 5 000 000 → the sentinel is the only accepted answer
+    //   1999 x 2499: 2000 * 2500 = 5 000 000 cells (not >)     → a real alignment (validity and recomputed score)
     let unit = "sc:-5:-1:0:0:0:0 w:4143:1,-1,-1,1";
-    out.push(format!("cap:0:0 kw:{}:{} {} big,-,-,2300,2300", 1 + rng.below(4), rng.below(5), unit));
-    out.push(format!("cap:0:0 kw:{}:{} {} big,-,-,2200,2200", 1 + rng.below(4), rng.below(5), unit));
+    out.push(format!("cap:0:0 kw:{}:{} {} big,-,-,1999,2500", 1 + rng.below(4), rng.below(5), unit));
+    out.push(format!("cap:0:0 kw:{}:{} {} big,-,-,1999,2499", 1 + rng.below(4), rng.below(5), unit));
     if thorough {
-        // exhaustive small scope: x (non-empty), y over {A,C} up to length 5, k <= 2, w <= 2, 6 schemes, entry
+        // exhaustive small scope: x, y over {A,C} up to length 5, k <= 2, w <= 2, 6 schemes, entry
         // points in rotation; one x against every y per history
         let seqs = enum_seqs(b"AC", 5);
         let schemes: [(i32, i32, [i32; 4], [i32; 4]); 6] = [
@@ -419,10 +412,9 @@ pub fn gen(tier: &str, rng: &mut Rng, out: &mut Vec<String>) {
         for (go, ge, clips, tab) in schemes {
             for k in 1..=2 {
                 for w in 0..=2 {
-                    for x in seqs.iter().filter(|s| !s.is_empty()) {
+                    for x in seqs.iter() {
                         let calls: Vec<String> = seqs
                             .iter()
-                            .filter(|y| !y.is_empty()) // empty sequences: known finding, corpus only
                             .map(|y| {
                                 rot += 1;
                                 format!("{},{},{}", entries[rot % entries.len()], hex(x), hex(y))
